@@ -167,7 +167,7 @@ fn random_slot(rng: &mut Rng, g: &GenesisValues) -> (u64, &'static str) {
     match rng.below(7) {
         0 => (rng.below(LIMIT), "uniform-2^40"),
         1 if sks > 0 => (rng.below(sks), "byron-uniform"),
-        2 if sks > 0 => { let k = rng.below(sks / bspe + 1); (k.saturating_mul(bspe).saturating_add(rng.below(5)).saturating_sub(2).min(LIMIT - 1), "byron-epoch-boundary") }
+        2 if sks > 0 => { let k = rng.below((sks / bspe).saturating_add(1)); (k.saturating_mul(bspe).saturating_add(rng.below(5)).saturating_sub(2).min(LIMIT - 1), "byron-epoch-boundary") }
         3 => { let k = rng.below(700); (sks.saturating_add(k * sel + rng.below(5)).saturating_sub(2).min(LIMIT - 1), "shelley-epoch-boundary") }
         4 => (sks.saturating_add(rng.below(200)).saturating_sub(100), "era-boundary"),
         5 => (sks.saturating_add(rng.below(400_000_000)), "shelley-uniform"),
